@@ -43,6 +43,7 @@ func (c01) Components() map[string]string {
 func (c01) Gen(r *rand.Rand, tier string, idx int) *core.Plan {
 	p := &core.Plan{World: map[string]int64{}}
 	p.World["sharedVerifier"] = int64(r.IntN(2))
+	p.World["rival"] = int64(r.IntN(2))
 	p.World["decoy"] = int64(r.IntN(3) / 2)
 	ns := 2 + r.IntN(3)
 	for i := 0; i < ns; i++ {
@@ -118,6 +119,7 @@ func (l c01) Exec(env *core.Env) *core.Result {
 		ctx := context.Background()
 		var firstVerify *core.Op
 		var sharedVerifier fullVerifier
+		var curStore *world.ScriptedStore // the trust store inside the verifier in use
 		for _, op := range p.Ops {
 			rt.Yield("op")
 			switch op.Kind {
@@ -287,6 +289,7 @@ func (l c01) Exec(env *core.Env) *core.Result {
 						res.Violate("HARNESS/verifier", "", "%v", err)
 						return
 					}
+					curStore = store
 					if p.W("sharedVerifier") == 1 {
 						sharedVerifier = v
 					}
@@ -307,7 +310,24 @@ func (l c01) Exec(env *core.Env) *core.Result {
 				want := world.JudgeWant{Required: required}
 				switch entry {
 				case 0:
-					outcome, verr = v.Verify(ctx, oci[art], sg.bytes, notation.VerifierVerifyOptions{ArtifactReference: "registry.example/repo@" + oci[art].Digest.String(), SignatureMediaType: mediaType, UserMetadata: required})
+					judged := func() {
+						outcome, verr = v.Verify(ctx, oci[art], sg.bytes, notation.VerifierVerifyOptions{ArtifactReference: "registry.example/repo@" + oci[art].Digest.String(), SignatureMediaType: mediaType, UserMetadata: required})
+					}
+					if p.W("rival") == 1 && !sg.mutated && sg.artifact < len(oci) && curStore != nil {
+						// Another goroutine of the host verifies, on the same verifier, the same envelope under the same
+						// reference string - for the artifact it was made for, demanding no metadata - and is already
+						// inside (at the trust store) when the verification under study begins.
+						g := &rivalGate{}
+						curStore.Gate = g.hold
+						made := oci[sg.artifact]
+						concurrently(sim, g, func() {
+							v.Verify(ctx, made, sg.bytes, notation.VerifierVerifyOptions{ArtifactReference: "registry.example/repo@" + oci[art].Digest.String(), SignatureMediaType: mediaType})
+						}, judged)
+						curStore.Gate = nil
+						res.Probe("verified_while_a_neighbour_verification_of_the_same_envelope_was_in_flight")
+					} else {
+						judged()
+					}
 					want.Digest, want.Size, want.MediaType, want.CheckMediaType = oci[art].Digest, oci[art].Size, oci[art].MediaType, true
 				case 2:
 					repo := &c01Repo{desc: oci[art], sig: sg.bytes, mediaType: mediaType}
